@@ -91,7 +91,21 @@ def check_inprocess(prog):
     """-> (fails, labels, ref description, pickles{stage: bytes})"""
     fails, labs = [], []
     x1 = build_output(prog)
-    x2 = build_output(prog)
+    # second build: equal chunk tuples inside a rechunk spec are made ONE object (as literals or
+    # cached chunk tuples are in user code); names must depend on values, not on object identity
+    orig = P.decode_chunks
+
+    def interned(spec, _cache={}):
+        out = orig(spec)
+        if isinstance(out, tuple):
+            out = tuple(_cache.setdefault(c, c) if isinstance(c, tuple) else c for c in out)
+        return out
+
+    P.decode_chunks = interned
+    try:
+        x2 = build_output(prog)
+    finally:
+        P.decode_chunks = orig
     d1 = describe(x1, compute=True)
     d2 = describe(x2, compute=False)
     if d1["name"] != d2["name"]:
